@@ -27,7 +27,27 @@ type c16Child struct {
 	done   chan struct{}
 }
 
+// c16StartChild starts the server; a port that another process grabbed between the probe and the bind (the other
+// process may even answer PING: it can be another olric member) means another attempt, not a verdict.
 func c16StartChild() (*c16Child, error) {
+	var err error
+	for attempt := 0; attempt < 6; attempt++ {
+		var c *c16Child
+		c, err = c16StartChildOnce()
+		if err != nil {
+			continue
+		}
+		time.Sleep(150 * time.Millisecond)
+		if c.alive() && !strings.Contains(c.stderr.String(), "Failed to start Olric") {
+			return c, nil
+		}
+		err = fmt.Errorf("olric-server exited during start: %s", tailOf(c.stderr.String(), 400))
+		c.stop()
+	}
+	return nil, err
+}
+
+func c16StartChildOnce() (*c16Child, error) {
 	bin := filepath.Join(os.Getenv("VERIF_BIN"), "olric-server")
 	if _, err := os.Stat(bin); err != nil {
 		return nil, fmt.Errorf("olric-server binary not built: %v", err)
